@@ -101,6 +101,21 @@ def compute_refactoring(project, st):
         if st["kind"] == "rename_module":
             ren = rename.Rename(project, res, None)
             return ren.get_changes(st["new"])
+        if st["kind"] == "move_module":
+            from rope.refactor import move
+
+            dest = project.get_resource(st["dest"])
+            if not dest.is_folder() or not dest.has_child("__init__.py") or dest.has_child(res.name):
+                return None
+            return move.create_move(project, res).get_changes(dest)
+        if st["kind"] == "to_package":
+            from rope.refactor import topackage
+
+            if res.is_folder() or not res.name.endswith(".py") or res.name == "__init__.py":
+                return None
+            if res.parent.has_child(res.name[:-3]):
+                return None
+            return topackage.ModuleToPackage(project, res).get_changes()
     except exceptions.RopeError:
         return None
     except Exception as e:  # internal errors on odd requests are C09's business
@@ -134,11 +149,17 @@ def gen_history_step(rng, model: HistoryModel, tree: TreeModel, classes, swarm, 
         if not files:
             rec, after = gen.gen_changeset(rng, tree, classes, swarm, next_id)
             return {"op": "do", "cs": rec}
-        if rng.random() < 0.25:
+        if rng.random() < 0.4:
             mods = [p for p in files if not p.endswith("__init__.py")]
-            if mods:
+            pkgs = sorted({p.rsplit("/", 1)[0] for p in files if p.endswith("/__init__.py")})
+            r = rng.random()
+            if mods and r < 0.5:
                 return {"op": "refactor", "kind": "rename_module", "path": rng.choice(mods),
                         "new": rng.choice(gen.NEW_IDENTS) + str(next_id), "id": next_id}
+            if mods and pkgs and r < 0.8:
+                return {"op": "refactor", "kind": "move_module", "path": rng.choice(mods), "dest": rng.choice(pkgs), "id": next_id}
+            if mods:
+                return {"op": "refactor", "kind": "to_package", "path": rng.choice(mods), "id": next_id}
         return {"op": "refactor", "kind": "rename", "path": rng.choice(files), "ident": rng.choice(gen.PROGRAM_IDENTS),
                 "occ": rng.randrange(4), "new": rng.choice(gen.NEW_IDENTS) + str(next_id), "id": next_id,
                 "docs": rng.random() < 0.2}
